@@ -317,6 +317,12 @@ def h_incoming_encrypted(ctx, enctype, payload):
     return [(l, o) for l, o in obs if "delivered" in l]
 
 
+def h_incoming_parked(ctx, count):
+    """encrypted messages that had to wait for the sender's keys: exactly one entity each once the keys are there"""
+    from checks import c03
+    return c03.h_parked_messages(ctx, count)
+
+
 def h_outgoing_sync_reply(ctx, kind):
     """request entities whose result the protocol layers turn into an entity: the answer may arrive while the request is still on its way down"""
     from checks import c08
@@ -348,6 +354,8 @@ def cases(tier):
         cs.append(dict(name="out-after-failed-send[%s]" % n.split(":")[-1], fn=h_outgoing_after_failure, args=(n, "all", True), max_paths=2000))
     for k in ("lastseen", "group-info", "picture-get", "media-upload", "groups-list"):
         cs.append(dict(name="out-answered-during-send[%s]" % k, fn=h_outgoing_sync_reply, args=(k,), max_paths=2000))
+    for count in (1, 2, 3):
+        cs.append(dict(name="in-encrypted[%d messages parked until the sender's keys arrive]" % count, fn=h_incoming_parked, args=(count,), max_paths=2000))
     for enctype in ("pkmsg", "msg", "skmsg", "pkmsg+skmsg"):
         # "+key-distribution": the answer to a group retry request carries the sender key merged into the original message
         for payload in ("text", "extended-text", "text+key-distribution", "extended-text+key-distribution"):
